@@ -149,7 +149,9 @@ func (x *Exec) ghostFieldRead(env *CEnv, e CCall) (Term, bool) {
 	key := x.ceval(env, e.Args[0], "Ref")
 	name, so, t, ok := x.ghostFieldMap(e.Fn, key)
 	if !ok {
-		x.cfail(env, "%s(%s): type %v has no such ghost field", e.Fn, key.S, key.Ty)
+		// another package's ghost field of the same name: the name means something else here
+		// (an interface state, a spec function)
+		return Term{}, false
 	}
 	r := tSelect(x.heapMap(env.st, name, so), key, so)
 	r.Ty = t
